@@ -54,7 +54,7 @@ for d in sorted(glob.glob("/verif/mutants/hint-*")):
     ok = j.get("confirm", "").startswith("ok")
     rows.append("| %s | %s | %s | %s | %s | %s |" % (os.path.basename(d), m.get("summary", ""), "passes" if ok else "suite fails", "yes" if j.get("caught_by_own_property_check") else "no", ", ".join(sorted(j.get("caught_by", {}))) or "-", notes.get(os.path.basename(d), "")))
 
-rows.append("\n### Independent seeded changes (seeded/), twelve per property in seven rounds\n")
+rows.append("\n### Independent seeded changes (seeded/), fourteen per property in eight rounds\n")
 rows.append("'when recorded' = with the harness and the commit of /repo of that time, all 20 quick checks; 're-measured' = own check only, by tools/reverify_seeds.py with the current harness at the commit named (patches that a later `fix:` commit moved under were rebased first; the original is kept as patch.at-<commit>.diff).\n")
 rows.append("| seed | what it changes | needs | caught by own check when recorded | all checks that caught it when recorded | re-measured |\n|---|---|---|---|---|---|")
 n = own = rown = retired = 0
@@ -72,6 +72,8 @@ for d in sorted(glob.glob("/verif/seeded/C*")):
         own += 1 if m.get("caught_by_own_property_check") else 0
         rown += 1 if rv.get("own_check") == "caught" and rv.get("confirm", "").startswith("ok") else 0
         rem = "%s at %s (%s)" % (rv.get("own_check", "-"), rv.get("repo_commit", "-"), "; ".join(rv.get("signatures", [])[:2]))
+        if m.get("not_own_note"):
+            rem += " NOTE: " + clean(m["not_own_note"])
     rows.append("| %s | %s | %s | %s | %s | %s |" % (os.path.basename(d), clean(m.get("summary")), clean(m.get("needs_to_manifest")), "yes (%s)" % "; ".join(cb.get(m["property"], [])[:2]) if m.get("caught_by_own_property_check") else "NO", ", ".join(sorted(cb)), rem))
 rows.append("\n%d seeded changes in use (+ %d retired because a repair of the tree neutralised it): %d were caught by the check of their own property when recorded, %d when re-measured against the current commit with the current harness; all confirmed by `tools/try_seed.sh` (compiles with and without hooks, unedited suite passes, demonstration fails with the change and passes without it).\n" % (n, retired, own, rown))
 rows.append(open("/verif/tools/strengthened.md").read() if os.path.exists("/verif/tools/strengthened.md") else "")
